@@ -4,12 +4,14 @@ import (
 	"fmt"
 	"os"
 	"sort"
+	"strconv"
 	"strings"
 	"time"
 
 	"verifh/atrun"
 	"verifh/fakedb"
 	"verifh/hutil"
+	"verifh/tcstub"
 )
 
 // ---------------------------------------------------------------- output
@@ -182,6 +184,10 @@ func c09Foreign(p *Plan, sr *shadowRun, r *hutil.Rng) {
 	differentVals := func(base []Val, cols []int) []Val {
 		nv := append([]Val{}, base...)
 		for _, ci := range cols {
+			if nv2, ok := nearVal(r, t.Cols[ci], base[ci]); ok && r.Chance(1, 2) {
+				nv[ci] = nv2
+				continue
+			}
 			for try := 0; try < 20; try++ {
 				v := genVal(r, t.Cols[ci])
 				if v != base[ci] {
@@ -294,10 +300,19 @@ func buildScenario(p *Plan) (atrun.Scenario, *stepIdx) {
 	add := func(s atrun.Step) int { sc.Steps = append(sc.Steps, s); return len(sc.Steps) - 1 }
 	ix.d0 = add(atrun.Step{Op: "dump"})
 	if p.Marker {
-		add(atrun.Step{Op: "tc_hook", Kind: "BranchRegister", Skip: 0, Steps: []atrun.Step{
-			{Op: "phase2", Action: "rollback", Xid: "127.0.0.1:8091:1", BranchID: 1},
-			{Op: "dump"},
-		}})
+		n := p.MarkerN
+		if n < 1 {
+			n = 1
+		}
+		var hs []atrun.Step
+		for i := 0; i < n; i++ {
+			hs = append(hs, atrun.Step{Op: "phase2", Action: "rollback", Xid: "127.0.0.1:8091:1", BranchID: 1})
+		}
+		hs = append(hs, atrun.Step{Op: "dump"})
+		add(atrun.Step{Op: "tc_hook", Kind: "BranchRegister", Skip: 0, Steps: hs})
+		if p.ReportFails {
+			add(atrun.Step{Op: "tc_script", Rules: []tcstub.Rule{{Kind: "BranchReport", Count: 20, Action: "transport"}}})
+		}
 	}
 	g := atrun.Step{Op: "gtx", End: "rollback"}
 	for bi, b := range p.Branches {
@@ -323,6 +338,16 @@ func buildScenario(p *Plan) (atrun.Scenario, *stepIdx) {
 		ix.branchSteps = append(ix.branchSteps, idx)
 	}
 	ix.gtx = add(g)
+	if p.Marker {
+		// the next users of the pooled connections: whatever the late phase one left open would be committed by them
+		for i := 0; i < 2; i++ {
+			c := fmt.Sprintf("probe%d", i)
+			add(atrun.Step{Op: "tx_begin", Conn: c})
+			add(atrun.Step{Op: "query", Conn: c, SQL: "SELECT COUNT(*) FROM " + p.Tables[0].Name})
+			add(atrun.Step{Op: "tx_commit", Conn: c})
+			add(atrun.Step{Op: "conn_close", Conn: c})
+		}
+	}
 	ix.d1 = add(atrun.Step{Op: "dump"})
 	for _, f := range p.Foreign {
 		add(atrun.Step{Op: "exec", Via: "bare", SQL: f.SQL})
@@ -358,6 +383,9 @@ func imageVal(v atrun.Val) (Val, bool) {
 		return Val{K: "int", V: v.V}, true
 	case "str", "raw":
 		return vStr(v.V), true
+	case "float", "float32":
+		f, err := strconv.ParseFloat(v.V, 64)
+		return vFloat(f), err == nil
 	}
 	return Val{}, false
 }
@@ -524,19 +552,30 @@ func runPlan(p *Plan, faultAt int) (*CaseJ, int) {
 		u := &tr.Steps[ix.d1].Undo[i]
 		undoByBranch[u.BranchID] = u
 	}
-	var markerEv *EventJ
+	var markerEvs []EventJ
 	if p.Marker {
-		if len(tr.HookResults) >= 2 && len(tr.HookResults[0].Phase2) == 1 {
-			ph := tr.HookResults[0].Phase2[0]
-			out := -1
-			if ph.Replied {
-				out = ph.Status
-			}
-			fired, ops := journalOf(tr, &tr.HookResults[0])
-			hd, _, _ := parseDump(tr.HookResults[1].Dump, p.Tables)
-			markerEv = &EventJ{E: "rollback", B: 1, Fault: -1, Out: out, Fired: fired, Ops: ops, Tabs: hd.list(p.Tables)}
-			if out != 8 {
-				bad("C10 marker: the rollback that found no undo log answered %d, not PhaseTwo_Rollbacked", out)
+		n := len(tr.HookResults) - 1
+		if n >= 1 && len(tr.HookResults[n].Dump) > 0 {
+			hd, _, _ := parseDump(tr.HookResults[n].Dump, p.Tables)
+			for i := 0; i < n; i++ {
+				if len(tr.HookResults[i].Phase2) != 1 {
+					excl("marker: hook delivery %d has no result", i)
+					continue
+				}
+				ph := tr.HookResults[i].Phase2[0]
+				out := -1
+				if ph.Replied {
+					out = ph.Status
+				}
+				fired, ops := journalOf(tr, &tr.HookResults[i])
+				ev := EventJ{E: "rollback", B: 1, Fault: -1, Out: out, Fired: fired, Ops: ops}
+				if i == n-1 {
+					ev.Tabs = hd.list(p.Tables)
+				}
+				markerEvs = append(markerEvs, ev)
+				if out != 8 {
+					bad("C10 marker: delivery %d of the rollback that found no undo log answered %d, not PhaseTwo_Rollbacked", i+1, out)
+				}
 			}
 		} else {
 			excl("marker: hook did not run")
@@ -563,8 +602,8 @@ func runPlan(p *Plan, faultAt int) (*CaseJ, int) {
 		if !ok && !p.Marker {
 			excl("a generated statement failed")
 		}
-		if p.Marker && bi == 0 && markerEv != nil {
-			c.Events = append(c.Events, *markerEv)
+		if p.Marker && bi == 0 && len(markerEvs) > 0 {
+			c.Events = append(c.Events, markerEvs...)
 			nonEmpty := false
 			for _, e := range sr.effects[0] {
 				if len(e.Rows) > 0 {
@@ -782,9 +821,9 @@ func runPlan(p *Plan, faultAt int) (*CaseJ, int) {
 			}
 		}
 	}
-	if !p.Marker {
+	{
 		if len(tr.OpenTxAtEnd) > 0 || len(tr.PoolReturnsTx) > 0 {
-			bad("C10: a rollback left its local transaction open (%d open, %d connections returned inside a transaction)", len(tr.OpenTxAtEnd), len(tr.PoolReturnsTx))
+			bad("C10: a local transaction of the rollback / of the refused late phase one was left open (%d open, %d connections returned inside a transaction)", len(tr.OpenTxAtEnd), len(tr.PoolReturnsTx))
 		}
 	}
 	return c, maxOps
